@@ -46,6 +46,13 @@ def jobs(tier):
                 cfg = dict(n=4, r=2, bound=(1 << 64), track_all=True, guard="sym", inner_prelude=pre)
                 js.append(dict(name="%s/n4/guard-inside-after-%s" % (e.name, pre[0]), entry=e.name, backend="snarkjs", cfg=cfg,
                                tier=tier, weight=3))
+    # fixed-point wrappers: value vs wire for powers, products and quotients (negative operands included)
+    from . import cat_c14
+    for e in cat_c14.build(8, "quick"):
+        if e.tags & {"pow", "mul", "truediv", "neg", "abs"} and "assert" not in e.tags and "obs" not in e.tags:
+            cfg = dict(n=8, r=2, bound=(1 << 30), track_all=True, guard=None)
+            js.append(dict(name="%s/n8r2/plain" % e.name, entry=e.name, backend="snarkjs", catalogue="checks.cat_c14", cfg=cfg,
+                           tier=tier, weight=2))
     return js
 
 
